@@ -783,6 +783,11 @@ func (tic *TermInCommittee) HandleNewView(nvm *interfaces.NewViewMessage) {
 		return
 	}
 
+	if ppMessageContent.SignedHeader().MessageType() != protocol.LEAN_HELIX_PREPREPARE {
+		tic.logger.Info("LHMSG RECEIVED NEW_VIEW IGNORE - NewView.Preprepare is not a PREPREPARE")
+		return
+	}
+
 	if !ppMessageContent.SignedHeader().InstanceId().Equal(nvmHeader.InstanceId()) {
 		tic.logger.Info("LHMSG RECEIVED NEW_VIEW IGNORE - NewView.InstanceId and NewView.Preprepare.InstanceId do not match")
 		return
